@@ -51,12 +51,17 @@ package services
 //@   modifies *
 //
 //@ func (*memcachedService).Handle
-//@   physical limOK(s.limiter) && stored(s.limiter) && 0 <= conn.written && conn.written < 1<<49 && 0 <= totalgrants && totalgrants < 1<<49
-//@   requires conn != nil
+//@   physical limOK(s.limiter) && stored(s.limiter) && 0 <= conn.written && conn.written < 1<<49 && 0 <= totalgrants && totalgrants < 1<<49 && 0 <= nsends && nsends < 1<<48 && 0 <= nlines && nlines < 1<<48
+//@   requires conn != nil && conn.bufreaders == 0
 //@   callpre (*Limiter).Allow: ip == raddr(conn)
 //@   ensures [amp] isUDP(conn) ==> conn.written - old(conn.written) <= totalgrants - old(totalgrants)
+//@   ensures [one-reader] conn.bufreaders == 1
+//@   ensures [events-per-line] nlines - old(nlines) <= nsends - old(nsends) && nsends - old(nsends) <= (nlines - old(nlines)) + (nlines - old(nlines))
 //@   modifies *
 //@   loop 1: invariant isUDP(conn) ==> conn.written - old(conn.written) <= totalgrants - old(totalgrants)
+//@   loop 1: invariant conn.bufreaders == 1
+//@   loop 1: invariant nlines == old(nlines) + loopiter
+//@   loop 1: invariant loopiter <= nsends - old(nsends) && nsends - old(nsends) <= loopiter + loopiter
 //
 //@ func (*counterStrikeService).Handle
 //@   physical limOK(s.limiter) && stored(s.limiter) && 0 <= conn.written && conn.written < 1<<49 && 0 <= totalgrants && totalgrants < 1<<49
@@ -99,3 +104,35 @@ package services
 //@   ensures [ends] last ==> !haskey(s.buffers, addr)
 //@   ensures [others-untouched] forall k string :: k != addr ==> haskey(s.buffers, k) == old(haskey(s.buffers, k)) && s.buffers[k] == old(s.buffers[k])
 //@   modifies entries(s.buffers), s.buffers[addr].content, s.buffers[addr].content[:]
+//
+// ---- every request is captured once, however the stream is segmented (property C04) ----
+// The server hands every connection to Handle wrapped in its timeout connection (proved at the call in
+// server.(*Honeytrap).handle): no handler ever sees the listener's concrete connection type.
+//@ spec served(conn net.Conn) bool = conn != nil && !typeis(conn, *github.com/honeytrap/honeytrap/listener.DummyUDPConn) && !typeis(conn, *net.TCPConn) && !typeis(conn, *net.UDPConn)
+//
+// One buffered reader per connection (what a reader has buffered beyond one request belongs to the next
+// request: a second reader over the same connection loses it), and one event per request read.
+//@ func (*httpService).Handle
+//@   requires served(conn) && conn.bufreaders == 0
+//@   physical 0 <= nsends && nsends < 1<<48
+//@   ensures [one-reader] conn.bufreaders == 1
+//@   ensures [one-event-per-request] nsends - old(nsends) == nrequests - old(nrequests) || (result != nil && nsends - old(nsends) == nrequests - old(nrequests) - 1)
+//@   modifies *
+//@   loop 1: invariant conn.bufreaders == 1
+//@   loop 1: invariant nsends - old(nsends) == nrequests - old(nrequests)
+//
+// Datagram services: a datagram handed over by the server (wrapped, see served) is read, decoded and
+// reported by exactly one event; only a failed read or decode (an error result) produces none.
+//@ func (*dnsService).Handle
+//@   requires served(conn)
+//@   physical 0 <= nsends && nsends < 1<<48 && 0 <= conn.consumed && conn.consumed < 1<<50
+//@   ensures [datagram-reported] (isUDP(conn) || network(raddr(conn)) == "tcp") && result == nil ==> nsends == old(nsends) + 1
+//@   ensures [at-most-one] nsends <= old(nsends) + 1
+//@   modifies *
+//
+//@ func (*echoService).Handle
+//@   requires served(conn)
+//@   physical 0 <= nsends && nsends < 1<<48 && 0 <= conn.consumed && conn.consumed < 1<<50
+//@   ensures [datagram-reported] isUDP(conn) && result == nil ==> nsends == old(nsends) + 1
+//@   ensures [at-most-one] nsends <= old(nsends) + 1
+//@   modifies *
